@@ -323,7 +323,10 @@ def _check_verify(ck: Checker, rule: str) -> None:
         def skip(a, lab, b):
             return a.kind == "test" and isinstance(a.ast, ast.Name) and a.ast.id in vnames and lab == "F"
 
-        reached = g.reach([d for lab, d in head.succ if lab == "T"], skip_node=lambda x: x.id in chk, skip_edge=skip)
+        from ..an import with_flags as _wf
+
+        lifted = _wf(g, lambda a, lab: skip(a, lab, None), start=head.id)
+        reached = g.reach([d for lab, d in head.succ if lab == "T"], skip_node=lambda x: x.id in chk, skip_edge=lambda a, lab, b: skip(a, lab, b) or lifted(a, lab))
         has_verify_test = any(a.kind == "test" and isinstance(a.ast, ast.Name) and a.ast.id in vnames and head.id in a.loops for a in g.nodes.values())
         bad = n.id in reached and has_verify_test
         ck.require(bool(chk) and has_verify_test and not bad, rule, fn, n,
